@@ -2,6 +2,10 @@ module verifharness
 
 go 1.14
 
-require github.com/openacid/low v0.0.0
+require (
+	github.com/golang/protobuf v1.4.2
+	github.com/openacid/errors v0.8.1
+	github.com/openacid/low v0.0.0
+)
 
 replace github.com/openacid/low => /repo
